@@ -28,10 +28,13 @@ type vBackend struct {
 	onAccept   func(msg *packet.Message)
 	neverAcked int
 	failed     int
+	pending    map[*packet.Message]int  // forwards of this message not yet acknowledged
+	reforward  map[*packet.Message]bool // forwarded again while an earlier forward was pending
 }
 
 func newVBackend(modes int) *vBackend {
-	return &vBackend{sess: session.NewMemorySession(), queue: make(chan *packet.Message, 8), modes: modes}
+	return &vBackend{sess: session.NewMemorySession(), queue: make(chan *packet.Message, 8), modes: modes,
+		pending: map[*packet.Message]int{}, reforward: map[*packet.Message]bool{}}
 }
 
 func (b *vBackend) Authenticate(*Client, string, string) (bool, error) { return true, nil }
@@ -64,6 +67,10 @@ func (b *vBackend) Publish(c *Client, msg *packet.Message, ack Ack) error {
 	idx := len(b.published)
 	b.published = append(b.published, msg)
 	b.accepted = append(b.accepted, false)
+	if b.pending[msg] > 0 {
+		b.reforward[msg] = true
+	}
+	b.pending[msg]++
 	mode := 0
 	if b.modes > 1 {
 		mode = vChoice("backend-publish", b.modes)
@@ -72,6 +79,9 @@ func (b *vBackend) Publish(c *Client, msg *packet.Message, ack Ack) error {
 		b.mu.Lock()
 		first := !b.accepted[idx]
 		b.accepted[idx] = true
+		if first {
+			b.pending[msg]--
+		}
 		cb := b.onAccept
 		b.mu.Unlock()
 		if first && cb != nil {
@@ -131,3 +141,11 @@ func (b *vBackend) Terminate(*Client) error {
 }
 
 func (b *vBackend) Log(LogEvent, *Client, packet.Generic, *packet.Message, error) {}
+
+// reforwarded: was msg handed to the backend again while an earlier hand-over of the same
+// message had not been acknowledged yet?  (predicate of known finding C07-late-ack-reforward)
+func (b *vBackend) reforwarded(msg *packet.Message) bool {
+	b.mu.Lock()
+	defer b.mu.Unlock()
+	return b.reforward[msg]
+}
